@@ -439,6 +439,8 @@ type Method struct {
 	DocLines  []string // non-notation doc lines
 	Features  []string
 	RawSig    string // when set, printed instead of the signature derived from the fields above
+	MidPos    int    // > 0: a non-notation line is printed before notation number MidPos (the notations are not one block)
+	MidLine   string // that line ("" = an empty comment line)
 }
 
 type Arg struct{ Name, Type string }
@@ -1027,6 +1029,11 @@ func (g *genState) genMethod(idx int) Method {
 	if g.rng.Intn(4) == 0 {
 		g.rng.Shuffle(len(m.Notations), func(i, j int) { m.Notations[i], m.Notations[j] = m.Notations[j], m.Notations[i] })
 	}
+	if len(m.Notations) >= 2 && g.rng.Intn(4) == 0 {
+		m.MidPos = 1 + g.rng.Intn(len(m.Notations)-1)
+		m.MidLine = g.pick([]string{"", "a remark between the notations."})
+		m.Features = append(m.Features, "prose-between-notations")
+	}
 	for _, f := range m.Features {
 		g.feat(f)
 	}
@@ -1393,7 +1400,7 @@ func renderSetup(rng *rand.Rand, c *Case, opt Options) string {
 			fmt.Fprintf(&sb, "\temb%s\n", it.Name)
 		}
 		for _, m := range it.Methods {
-			for _, l := range docBlock(rng, c, m.DocLines, m.Notations) {
+			for _, l := range docBlock(m) {
 				sb.WriteString(strings.TrimRight("\t// "+l, " ") + "\n")
 			}
 			sb.WriteString("\t" + m.signature() + "\n")
@@ -1424,15 +1431,15 @@ func renderSetup(rng *rand.Rand, c *Case, opt Options) string {
 	return sb.String()
 }
 
-// docBlock lays out a method's doc comment: the prose lines, then the notation lines — sometimes with a
+// docBlock lays out a method's doc comment: the prose lines, then the notation lines — for some methods with a
 // prose line or an empty comment line between two notation lines (the notations need not be one block).
-func docBlock(rng *rand.Rand, c *Case, doc, nots []string) []string {
-	lines := append(append([]string{}, doc...), nots...)
-	if len(nots) >= 2 && rng.Intn(4) == 0 {
-		pos := len(doc) + 1 + rng.Intn(len(nots)-1)
-		ins := []string{"", "a remark between the notations."}[rng.Intn(2)]
-		lines = append(lines[:pos], append([]string{ins}, lines[pos:]...)...)
-		c.Features["prose-between-notations"]++
+func docBlock(m Method) []string {
+	lines := append([]string{}, m.DocLines...)
+	for i, n := range m.Notations {
+		if m.MidPos > 0 && i == m.MidPos {
+			lines = append(lines, m.MidLine)
+		}
+		lines = append(lines, n)
 	}
 	return lines
 }
